@@ -88,6 +88,27 @@ pub fn case(t: &mut Tape, scratch: &Scratch) -> CaseResult {
                 json!({"needed_options": needed, "missing": missing, "unneeded": extra, "project": pj}),
             ));
         }
+        // independent of the library's own table: the ICU4X 1.5 data markers the constructors used by the generated
+        // code are bounded by (FixedDecimalFormatter, CurrencyFormatter, ListFormatter, PluralRules, DateTimeFormatter
+        // with the Gregorian calendar), by their registered names. A name the data generator does not know is dropped
+        // silently by `icu_datagen::keys`, so a wrong name shows up as a missing key here.
+        for fam in &needed {
+            let required: &[&str] = match fam.as_str() {
+                "plurals" => &["plurals/cardinal@1", "plurals/ordinal@1"],
+                "number" => &["decimal/symbols@1"],
+                "list" => &["list/and@1", "list/or@1", "list/unit@1"],
+                "datetime" => &["datetime/timesymbols@1", "datetime/timelengths@1", "datetime/gregory/datelengths@1", "datetime/gregory/datesymbols@1", "datetime/week_data@1", "decimal/symbols@1"],
+                _ => &["currency/essentials@1", "decimal/symbols@1"],
+            };
+            let missing: Vec<&str> = required.iter().copied().filter(|name| !actual.iter().any(|k| k.contains(&format!("{name}}}")) || k.ends_with(name))).collect();
+            observations += 1;
+            if !missing.is_empty() {
+                return Err(fail(
+                    "icu-keys-missing-for-constructor",
+                    json!({"family": fam, "missing": missing, "actual": actual, "why": "the formatter constructor of this family needs these data markers (ICU4X 1.5 names)", "project": pj}),
+                ));
+            }
+        }
         // the answer must not depend on what was asked of this instance before: build drivers with every extra
         // option (`t*_format!` users do that), then ask again
         {
